@@ -41,7 +41,7 @@ MUTATIONS = [
     # ---- C02
     ('c02-stale-dtype', 'C02', 'abacusnbody/data/compaso_halo_catalog.py', 'np.empty(len(rawhalos), dtype=src[field]), name=field, copy=False', 'np.empty(len(rawhalos), dtype=src[col]), name=field, copy=False'),
     ('c02-index-cols-only-cleaned', 'C02', 'abacusnbody/data/compaso_halo_catalog.py', "        for AB in load_AB:\n            if 'npstart' + AB not in fields:", "        for AB in (load_AB if cleaned else []):\n            if 'npstart' + AB not in fields:"),
-    ('c02-dependency-order', 'C02', 'abacusnbody/data/compaso_halo_catalog.py', 'fields_with_deps = list(dict.fromkeys(iter_fields[::-1]))', 'fields_with_deps = list(dict.fromkeys(iter_fields))'),
+    ('c05-dependency-order', 'C05', 'abacusnbody/data/compaso_halo_catalog.py', 'fields_with_deps = list(dict.fromkeys(iter_fields[::-1]))', 'fields_with_deps = list(dict.fromkeys(iter_fields))'),
     ('c02-eigvec-sibling', 'C02', 'abacusnbody/data/compaso_halo_catalog.py', "            middle_field = m['rnv'] + 'Mid' + m['com']\n            if middle_field in halos.colnames:\n                columns[middle_field] = middle", "            middle_field = m['rnv'] + 'Mid' + m['com']\n            if middle_field in halos.colnames and minor_field not in halos.colnames:\n                columns[middle_field] = middle"),
     ('c02-N-total-not-added', 'C02', 'abacusnbody/data/compaso_halo_catalog.py', "            if 'N_total' not in fields:\n                fields += ['N_total']", "            if 'N_total' not in fields and len(fields) > 1:\n                fields += ['N_total']"),
     # ---- C03
